@@ -247,6 +247,12 @@ def main():
     # rejections
     shapes = [["full", [3, 3]], ["full", [2, 4]], ["full", [4, 2]], ["full", [1, 1]], ["full", [6, 6]], ["full", [4]], ["full", [2, 2, 2]], ["full", [5, 5]], ["full", [12, 12]],
               ["diag", [1]], ["diag", [3]], ["diag", [6]], ["diag", [2, 2]], ["diag", [12]]]
+    # every 2-D shape r x c with r, c in a grid that holds powers of two and of four, their neighbours and 1 (non-square shapes whose entry count
+    # happens to be a power of four included), and every 1-D length of that grid
+    # (sizes up to 16: the model's shape predicate computes powers of two in unary)
+    grid = [1, 2, 3, 4, 5, 8, 16]
+    shapes += [["full", [r, c]] for r in grid for c in grid if r != c] + [["full", [0, 0]], ["full", [0, 4]], ["full", [2, 0]]]
+    shapes += [["diag", [k]] for k in (0, 5, 7, 9, 10, 14)] + [["diag", [2, 1]], ["diag", [1, 2]], ["diag", [4, 1]]]
     rj = ck.impl("c13", [{"op": "reject", "shapes": shapes}])[0]["res"]
     mj = ck.oracle(["shapeok %d %d %d" % (len(s), s[0], s[1] if len(s) > 1 else 0) if k == "full" else "dshapeok %d %d" % (len(s), s[0]) for k, s in shapes])
     for (k, s), a, b in zip(shapes, rj, mj):
